@@ -318,7 +318,7 @@ class C08(common.Prop):
             "copy, flatten) incl. out-of-range arguments; fps from {30, 29.97, 25, 1, 60, .001, +-0, NaN, inf, -2} or random with magnitude 2^-20..2^20; ~10% of index/step arguments are outside the common domain "
             "(negative index, empty list, negative step: model correspondence only). matmul values are compared exactly on dyadic "
             "inputs and within 8 float32 ulps of sum|x||m| otherwise, flatten's time column within 4 ulps(float32); everything "
-            "else bit-exact. non-trivial = the read succeeds with F*P*T*D > 0; distinct by content hash")
+            "else bit-exact. non-trivial = the read succeeds with F*P*T*D > 0; distinct by content hash " "30% two-step cases (the operations applied to the result of a selection from a larger file); conversion of a NumPy body after an in-place write to its array.")
     TRUSTED = ["Coq 8.16.1 kernel (vm_compute for the refuted witnesses and examples)", "harness/translate_c08.py (fail-closed ast translator)",
                "extraction: ExtrOcamlBasic only; runner/driver.ml", "harness/c08.py canonicalisers (NaN -> one word, mask polarity, errors -> one class) "
                "and its plain-NumPy reference for the oracle"]
